@@ -204,6 +204,64 @@ func c02Probes() []c02Probe {
 	}
 }
 
+// c02LoopShapes enumerates two loop nests in a row: each nest 1-3 levels deep over literal arrays (plain and indexed
+// for, a while level), with a break or a continue at one level or none. Every body folds its loop variables into an
+// order-sensitive checksum.
+func c02LoopShapes() (string, []HReq) {
+	var b strings.Builder
+	var reqs []HReq
+	type nest struct {
+		depth int
+		ctl   string // "", "break", "continue"
+		at    int    // level carrying the control statement
+		while bool   // the outermost level is a while loop
+	}
+	var nests []nest
+	for d := 1; d <= 3; d++ {
+		nests = append(nests, nest{d, "", 0, false})
+		for at := 0; at < d; at++ {
+			nests = append(nests, nest{d, "break", at, false}, nest{d, "continue", at, at == 0 && d > 1})
+		}
+	}
+	arrs := []string{"[1, 2, 3]", "[10, 20, 30]", "[5, 6, 7, 8]"}
+	emit := func(nn nest, id string, ind string) string {
+		var o strings.Builder
+		vars := []string{"a" + id, "b" + id, "c" + id}
+		for l := 0; l < nn.depth; l++ {
+			pad := ind + strings.Repeat("  ", l)
+			if l == 0 && nn.while {
+				fmt.Fprintf(&o, "%s$ w%s = 0\n%swhile w%s < 3 {\n%s  w%s = w%s + 1\n%s  $ %s = w%s\n", pad, id, pad, id, pad, id, id, pad, vars[l], id)
+			} else if l == 1 {
+				fmt.Fprintf(&o, "%sfor i%s, %s in %s {\n", pad, id, vars[l], arrs[l])
+			} else {
+				fmt.Fprintf(&o, "%sfor %s in %s {\n", pad, vars[l], arrs[l])
+			}
+			if nn.ctl != "" && nn.at == l {
+				fmt.Fprintf(&o, "%s  if %s > %s {\n%s    %s\n%s  }\n", pad, vars[l], []string{"1", "10", "6"}[l], pad, nn.ctl, pad)
+			}
+		}
+		pad := ind + strings.Repeat("  ", nn.depth)
+		expr := "acc * 31"
+		for l := 0; l < nn.depth; l++ {
+			expr += " + " + vars[l]
+		}
+		fmt.Fprintf(&o, "%sacc = (%s) %% 1000003\n", pad, expr)
+		for l := nn.depth - 1; l >= 0; l-- {
+			fmt.Fprintf(&o, "%s}\n", ind+strings.Repeat("  ", l))
+		}
+		return o.String()
+	}
+	k := 0
+	for _, n1 := range nests {
+		for _, n2 := range nests {
+			fmt.Fprintf(&b, "@ GET /ls%d {\n  $ acc = 7\n%s%s  > {acc: acc}\n}\n\n", k, emit(n1, "x", "  "), emit(n2, "y", "  "))
+			reqs = append(reqs, HReq{M: "GET", P: fmt.Sprintf("/ls%d", k)})
+			k++
+		}
+	}
+	return b.String(), reqs
+}
+
 func checkC02(tier string) {
 	r := mon.New("C02", tier, "translation_validation")
 	r.Rule = "modules of 4 generated routes (G-prog core fragment: int/float/str/bool/array/object expressions, arithmetic with coercion, comparisons, total && ||, field/index on variables, shared builtins, if/else, bounded while, for / indexed for, switch, break/continue, nested return, status return, guards, ill-typed operands, division by zero, out-of-range indices) served in compiled and interpreted mode through the CLI wiring; every request's (status, decoded body, connection fate) compared; distinct = route source hash; non-trivial = >= 12 AST nodes. Quarantined constructs (one recorded finding each) are replayed by directed probes only"
@@ -301,6 +359,13 @@ func checkC02(tier string) {
 	metas[useID] = &meta{src: useSrc, flag: "bindings-use", reqs: ureqs}
 	jobs = append(jobs, HJob{ID: useID * 2, Src: useSrc, Interp: false, Reqs: ureqs}, HJob{ID: useID*2 + 1, Src: useSrc, Interp: true, Reqs: ureqs})
 
+	// loop shapes: nests of for / indexed for / while loops with breaks and continues, one nest after the other. The VM
+	// keeps iterators in a table; which slot a loop gets must never depend on what earlier loops left behind.
+	lsSrc, lsReqs := c02LoopShapes()
+	lsID := len(metas)
+	metas[lsID] = &meta{src: lsSrc, flag: "loop-shapes", reqs: lsReqs}
+	jobs = append(jobs, HJob{ID: lsID * 2, Src: lsSrc, Interp: false, Reqs: lsReqs}, HJob{ID: lsID*2 + 1, Src: lsSrc, Interp: true, Reqs: lsReqs})
+
 	// directed probes of the quarantined constructs
 	probes := c02Probes()
 	probeBase := len(metas)
@@ -352,7 +417,7 @@ func checkC02(tier string) {
 		if !oc.Compiled {
 			fellBack++
 		}
-		if m.flag == "bindings" || m.flag == "bindings-use" {
+		if m.flag == "bindings" || m.flag == "bindings-use" || m.flag == "loop-shapes" {
 			breqs, bindSrc := m.reqs, m.src
 			for qi := range oc.Resps {
 				if qi >= len(oi.Resps) {
